@@ -234,7 +234,9 @@ ProcBegin ==
 StopSet(h) ==
   /\ up /\ pc = "stop" /\ cyc.cur = "none" /\ h \in cyc.todo
   /\ LET age == IF run[h].flag THEN now - run[h].when ELSE 0
-         timerend == IsTimer(h)          \* an idle timer notices the flag within the instant-exit window
+         \* an idle timer notices the flag within the instant-exit window - which there is only if the flag was not set before
+         \* (by the daemon killer a moment ago, say: then the stage is evaluated at once and may find the timer still there)
+         timerend == IsTimer(h) /\ ~run[h].flag
      IN /\ IF timerend /\ run[h].on
            THEN /\ run' = [run EXCEPT ![h] = NoRun] /\ UNCHANGED mem
            ELSE /\ run' = [run EXCEPT ![h].flag = TRUE, ![h].when = IF run[h].flag THEN @ ELSE now] /\ UNCHANGED mem
@@ -334,9 +336,13 @@ WorkerAbort ==
 (***************************************************************************)
 \* one round of the daemon killer: a stop_daemon() coroutine is started for every instance in sight (idle timers end at once)
 Round(t) == [h \in Hs |-> IF run[h].on /\ run[h].vis
-                          THEN (IF IsTimer(h) THEN NoRun
+                          THEN (IF IsTimer(h) THEN [run[h] EXCEPT !.flag = TRUE, !.when = IF run[h].flag THEN @ ELSE t]
                                 ELSE [run[h] EXCEPT !.flag = TRUE, !.when = IF run[h].flag THEN @ ELSE t, !.sd = @ \cup {t}])
                           ELSE run[h]]
+TimerEnd(h) ==    \* an idle timer that was told to stop ends a few iterations of the loop later
+  /\ up /\ IsTimer(h) /\ run[h].on /\ run[h].flag
+  /\ run' = [run EXCEPT ![h] = NoRun]
+  /\ UNCHANGED <<obj, chan, bl, up, stopping, mem, pc, cyc, now, bud, gh, conf>>
 KillerPass ==     \* while paused: at once, then every second
   /\ up /\ ~stopping /\ gh.paused /\ now >= gh.nextpass
   /\ run' = Round(now) /\ gh' = [gh EXCEPT !.nextpass = now + 1]
@@ -357,7 +363,7 @@ KDrop(h) ==       \* ... no cancellation timeout: the coroutine ends after the b
 
 OpStep == ProcBegin \/ (\E h \in Hs : StopSet(h) \/ Stage(h) \/ StageC(h)) \/ ProcFinish \/ SrvMerge \/ Reply1 \/ SrvJson \/ Post
           \/ SleepWake \/ SleepExpire \/ SrvTouch \/ StreamEnd \/ WorkerAbort \/ KillerExit \/ KillerPass \/ PauseClose \/ (Relist /\ ~stopping)
-          \/ (\E h \in Hs : KCancel(h) \/ KDrop(h))
+          \/ (\E h \in Hs : KCancel(h) \/ KDrop(h) \/ TimerEnd(h))
 \* a function with a stated latency does what it does on time
 Punctual(h) == DH[h].lat # -1 /\ (DSeeFlag(h) \/ DCancelled(h) \/ DExit(h))
 \* (a requested cancellation reaches a coroutine in the next iteration of the loop)
